@@ -57,6 +57,16 @@ def _rel_pid(w, vals, i):
     return "pid bound, object %s, %s" % ("present" if ob else "absent", "shared" if shared else "sole reference")
 
 
+def caller_rewrites(w, path, data=b"the caller reuses its file"):
+    """in-place rewrite (same inode) of a file that belongs to the caller"""
+    if w.mode == "native":
+        with open(path, "r+b") as fh:
+            fh.write(data)
+            fh.truncate()
+    else:
+        w.F.b.write(symfs.FS.p(path), data)
+
+
 def make_data(call, w, p, content):
     """the data argument of a store call in one of its documented kinds: path string, Path, open binary file, in-memory
     stream (the latter two positioned at a solver-chosen offset); returns (argument, caller-owned stream or None)"""
@@ -159,6 +169,8 @@ class StoreObj(Call):
     def after(self, w, s, res):
         if res != "ok":
             return []
+        if self.kind in ("path", "Path"):
+            caller_rewrites(w, w.src(self.k))       # the caller goes on to use its own file for something else
         try:
             st = s.retrieve_object(w.pids[self.i])
             try:
@@ -274,6 +286,22 @@ class StoreMeta(Call):
     def model(self, w, pre):
         cases, post = w.m_store_meta(pre, self.i, self.v, self.f)
         return [(c, OK) for c, _ in cases], post
+
+    def after(self, w, s, res):
+        if res != "ok" or self.kind not in ("path", "Path"):
+            return []
+        caller_rewrites(w, w.docsrc(self.v))        # the caller goes on to use its own file for something else
+        try:
+            st = s.retrieve_metadata(w.pids[self.i], self.f)
+            try:
+                got = st.read()
+            finally:
+                st.close()
+        except Exception as e:   # noqa
+            return [("stored-document-not-retrievable", type(e).__name__)]
+        if got != w.docs[self.v]:
+            return [("stored-document-follows-the-caller's-file", got[:40])]
+        return []
 
     def check_value(self, w, ps, val, res):
         if res == "ok":
@@ -423,7 +451,7 @@ class After(Call):
     the second call must behave exactly as if it were the only one"""
 
     def __init__(self, first, second):
-        assert first.readonly
+        assert first.readonly or first.rejected
         self.first, self.second = first, second
         self.label = "%s ; then %s" % (first.label, second.label)
         self.roles = "%s after a %s on the same instance" % (second.roles, first.roles)
@@ -589,9 +617,12 @@ def run_step(ps, w, menu, extra_assume=None):
     except Exception as e:     # noqa
         res = w.classify(e)
         val = e
+        if type(e).__name__ == "WouldBlock":      # single-threaded stand-ins: a wait() that nobody can end
+            diverged = "blocks for ever: " + str(e)
     bad = []
     if diverged:
         bad.append(("result-class", "DOES-NOT-RETURN", diverged))
+        bad.append(("call-does-not-return", diverged))
     for p in call.after(w, s, res):
         bad.append(("round-trip:" + p[0], p[1:]))
     post = w.post()
@@ -683,12 +714,56 @@ def explore_steps(w_args, menu_fn, splits=None, clauses=None, procs=None, deadli
         except Exception as e:   # noqa
             if type(e).__name__ == "Aliasing":
                 return [("ALIAS", e.what, 0)]
+            if type(e).__name__ == "LearnFailed":
+                return [("LEARN", (e.what, dict(contents=[c for c in w_args["contents"]])), 0)]
             raise
         n = len(menu_fn(w0))
         import os
         k = procs or min(16, os.cpu_count() or 4)
         splits = [list(range(r, n, k)) for r in range(k) if r < n]
     return par_explore(worker, splits, procs)
+
+
+def learn_native(what, contents):
+    """native confirmation of a plain call that failed (or left other files than expected) on an empty store"""
+    import logging
+    import os
+    import shutil
+    from . import loader
+    from .universe import scratch_root
+    logging.disable(logging.CRITICAL)
+    MN = loader.load("filehashstore.py")
+    root = scratch_root()
+    try:
+        s = MN.FileHashStore(dict(store_path=root + "/s", store_depth=3, store_width=2, store_algorithm="SHA-256",
+                                  store_metadata_namespace="ns"))
+        with open(root + "/d0", "wb") as fh:
+            fh.write(b"<doc/>")
+
+        def tree():
+            return sorted(os.path.join(dp, f) for dp, _d, fs in os.walk(root + "/s") for f in fs)
+        before = tree()
+        api, args = what["api"], what["args"]
+        try:
+            if api == "store_object":
+                with open(root + "/c", "wb") as fh:
+                    fh.write(contents[args[1]])
+                s.store_object(args[0], root + "/c")
+                expect = 1
+            elif api == "tag_object":
+                s.tag_object(args[0], args[1])
+                expect = 2
+            else:
+                s.store_metadata(args[0], root + "/d0", args[1])
+                expect = 1
+            n = len(tree()) - len(before)
+            out = "created %d files" % n
+            bad = n != expect
+        except Exception as e:   # noqa
+            out, bad = "%s: %s" % (type(e).__name__, str(e)[:160]), True
+        return bad, "native run (unpatched code, real file system, empty store): %s%r -> %s" % (api, tuple(args), out)
+    finally:
+        shutil.rmtree(root, ignore_errors=True)
 
 
 def alias_native(what, files=None):
